@@ -31,7 +31,9 @@ var c06Texts = []string{"1.5", "2.5", "-1.5", "0.5", "-0.5", "3", "10", "abc", "
 	"1" + strings.Repeat("0", 309), "-1" + strings.Repeat("0", 309), "9" + strings.Repeat("9", 320) + ".5", "0." + strings.Repeat("0", 400) + "1",
 	// only space, tab, CR and LF are white space: these are not numerals
 	"9007199254740993.00000000000000000000000000000000000000000001", "0.00000000000000000000001", "4503599627370496.5000000000000000000000000000000000000000001",
-	"\u00a05", "5\u00a0", "\u20031", "\v2", "3\f", "\u00852", "\u30004", "\ufeff6"}
+	"\u00a05", "5\u00a0", "\u20031", "\v2", "3\f", "\u00852", "\u30004", "\ufeff6",
+	// what other languages' number syntaxes accept and XPath does not
+	"1_000", "1_0.5", "1,000", "1'000", "0b11", "0o17", "1f", "1d", "1L", "٣", "１２"}
 
 // splitText gives the text of an element as one text node or - the
 // string-value is the concatenation of ALL text descendants - as two text
@@ -169,8 +171,19 @@ func TestC06(t *testing.T) {
 		l, lk := operand("left")
 		var e *xast.Expr
 		cls := ""
-		if rapid.IntRange(0, 5).Draw(t, "unary") == 0 {
+		if u := rapid.IntRange(0, 11).Draw(t, "unary"); u <= 1 {
 			e, cls = xast.Neg(l), "neg "+lk
+			// runs of unary minus: every one of them converts with number() (--'abc' is NaN, not 'abc'), seen
+			// through string(), boolean() and the result type
+			for k := rapid.IntRange(0, 3).Draw(t, "negRun"); k > 0; k-- {
+				e, cls = xast.Neg(e), "neg "+cls
+			}
+			switch rapid.IntRange(0, 3).Draw(t, "negSeenAs") {
+			case 0:
+				e = xast.Call("string", e)
+			case 1:
+				e = xast.Call("boolean", e)
+			}
 		} else {
 			r, rk := operand("right")
 			op := ops[rapid.IntRange(0, 4).Draw(t, "op")]
